@@ -411,7 +411,8 @@ Section L.
         match nd', dget k d with
         | NLeaf f, Some (VLeaf x) => match lvalidate f x with Err e => [wrap (path_join pre k) e] | _ => [] end
         | NCfgList req _ _, Some (VLeaf PNone) => if req then [EValidation (path_join pre k)] else []
-        | NCfgList req _ _, Some (VList l) => if req && is_nil l then [EValidation (path_join pre k)] else []
+        | NCfgList req _ _, Some (VList l) =>
+            if req && is_nil l then [EValidation (path_join pre k)] else firstn 1 (validate_errs nd' (path_join pre k) (VList l))
         | NSub _ _ _, Some (VCfg c) => firstn 1 (validate_errs nd' (path_join pre k) (VCfg c))
         | _, _ => []
         end
@@ -427,6 +428,19 @@ Section L.
     induction fs as [|[k nd'] fs IH]; [reflexivity|]. cbn [flat_map]. rewrite <- IH. unfold field_errs at 1.
     destruct nd' as [f|d1 v1 f1|req v1 f1]; destruct (dget k d) as [[x|c0|l]|]; try reflexivity;
       try (destruct x; reflexivity); try (destruct l; reflexivity).
+  Qed.
+
+  (* the errors of a list of configurations: item by item, each item at its own indexed path *)
+  Fixpoint items_errs (vs : list N) (fs : list (str * node F)) (pre : str) (l : list cfg) (i : N) : list errk :=
+    match l with
+    | [] => []
+    | it :: r => validate_errs (NSub false vs fs) (path_index pre i) (VCfg it) ++ items_errs vs fs pre r (i + 1)
+    end.
+  Lemma validate_errs_list : forall req vs fs pre l,
+    validate_errs (NCfgList req vs fs) pre (VList l) = items_errs vs fs pre l 0.
+  Proof.
+    intros. cbn [Config.validate_errs]. generalize 0. induction l as [|it l IH]; intro i; [reflexivity|].
+    cbn [items_errs]. rewrite <- IH. reflexivity.
   Qed.
 
   Theorem collect_iff_raise : forall nd pre v, validate_errs nd pre v <> [] <-> validate_raise nd pre v <> OOk.
@@ -450,6 +464,8 @@ Section L.
     (forall k f x, In (k, NLeaf f) fs -> dget k d = Some (VLeaf x) -> forall e, lvalidate f x <> Err e)
     /\ (forall k req vs' fs', In (k, NCfgList req vs' fs') fs -> req = true ->
           dget k d <> Some (VLeaf PNone) /\ dget k d <> Some (VList []))
+    /\ (forall k req vs' fs' l, In (k, NCfgList req vs' fs') fs -> dget k d = Some (VList l) ->
+          items_errs vs' fs' (path_join pre k) l 0 = [])
     /\ (forall k d' vs' fs' sub, In (k, NSub d' vs' fs') fs -> dget k d = Some (VCfg sub) ->
           validate_errs (NSub d' vs' fs') (path_join pre k) (VCfg sub) = [])
     /\ (forall n, In n vs -> vrun n (leaf_values d) = true).
@@ -464,6 +480,10 @@ Section L.
     - intros k f x Hin Hg e He. specialize (Hall _ Hin). cbn [field_errs] in Hall. rewrite Hg, He in Hall. discriminate.
     - intro Hg. specialize (Hall _ H). cbn [field_errs] in Hall. rewrite Hg in Hall. subst req. discriminate.
     - intro Hg. specialize (Hall _ H). cbn [field_errs] in Hall. rewrite Hg in Hall. subst req. discriminate.
+    - intros k req vs' fs' l Hin Hg. specialize (Hall _ Hin). cbn [field_errs] in Hall. rewrite Hg in Hall.
+      rewrite validate_errs_list in Hall.
+      destruct (req && is_nil l); [discriminate|].
+      destruct (items_errs vs' fs' (path_join pre k) l 0); [reflexivity | discriminate].
     - intros k d' vs' fs' sub Hin Hg. specialize (Hall _ Hin). cbn [field_errs] in Hall. rewrite Hg in Hall.
       destruct (validate_errs (NSub d' vs' fs') (path_join pre k) (VCfg sub)); [reflexivity | discriminate].
     - intros n Hin. destruct (vrun n (leaf_values d)) eqn:E; [reflexivity|].
@@ -550,27 +570,49 @@ Section L.
   Lemma wrap_plain : forall p e, (forall q, e <> EValidation q) -> wrap p e = EValidation p.
   Proof. intros p e H. destruct e; try reflexivity. exfalso. eapply H. reflexivity. Qed.
 
+  Lemma nsize_cfglist : forall r v fs, nsize (NCfgList r v fs) = S (fsize fs).
+  Proof. intros. cbn [nsize]. f_equal. induction fs as [|[k n] fs IH]; [reflexivity|]. cbn [fsize fold_right snd]. f_equal. exact IH. Qed.
+
+  Lemma items_errs_in : forall vs fs pre l i e, In e (items_errs vs fs pre l i) ->
+    exists j it, In e (validate_errs (NSub false vs fs) (path_index pre j) (VCfg it)).
+  Proof.
+    induction l as [|it l IH]; intros i e H; [destruct H|]. cbn [items_errs] in H. apply in_app_or in H. destruct H as [H|H].
+    - exists i, it. exact H.
+    - eapply IH; eauto.
+  Qed.
+
   Lemma validate_errs_below : forall n nd pre v e, (nsize nd <= n)%nat -> In e (validate_errs nd pre v) -> verr_below pre e.
   Proof.
     induction n as [|n IH]; intros nd pre v e Hn Hin.
     - destruct nd; cbn [nsize] in Hn; lia.
-    - destruct nd as [f|dyn vs fs|req vs fs]; try (destruct v; destruct Hin; fail).
-      destruct v as [x|[i d df dy]|l]; try (destruct Hin; fail).
-      rewrite validate_errs_unfold in Hin. destruct (feature_enabled fs d); [|destruct Hin].
-      apply in_app_or in Hin. destruct Hin as [Hin|Hin].
-      + apply in_flat_map in Hin. destruct Hin as [[k nd'] [Hk He]]. cbn [field_errs] in He.
-        assert (Hw : verr_below pre (EValidation (path_join pre k))) by (eexists; split; [reflexivity | apply is_prefix_join]).
-        destruct nd' as [f|d1 v1 f1|req v1 f1]; destruct (dget k d) as [[x|c0|l]|]; try (destruct He; fail).
-        * destruct (lvalidate f x) eqn:Ev; try (destruct He; fail). destruct He as [<-|[]].
-          rewrite wrap_plain; [exact Hw | intros q Hq; subst; eapply leaf_validate_plain; eauto].
-        * assert (Hs : (nsize (NSub d1 v1 f1) <= n)%nat) by (rewrite nsize_sub in Hn; pose proof (fsize_in _ _ _ Hk); lia).
-          destruct (validate_errs (NSub d1 v1 f1) (path_join pre k) (VCfg c0)) as [|e0 r] eqn:Ee; [destruct He|].
-          cbn [firstn] in He. destruct He as [<-|[]].
-          eapply verr_below_weaken; [apply is_prefix_join|]. eapply IH; [exact Hs|]. rewrite Ee. left; reflexivity.
-        * destruct x; try (destruct He; fail). destruct req; [|destruct He]. destruct He as [<-|[]]. exact Hw.
-        * destruct (req && is_nil l); [|destruct He]. destruct He as [<-|[]]. exact Hw.
-      + apply in_flat_map in Hin. destruct Hin as [m [_ He]]. destruct (vrun m (leaf_values d)); [destruct He|].
-        destruct He as [<-|[]]. eexists; split; [reflexivity | apply is_prefix_refl].
+    - (* a (sub)configuration of fields fs, given the statement for every smaller node *)
+      assert (Hsub : forall dyn vs fs pre c e, (fsize fs <= n)%nat ->
+                In e (validate_errs (NSub dyn vs fs) pre (VCfg c)) -> verr_below pre e).
+      { clear nd pre v e Hn Hin. intros dyn vs fs pre [i d df dy] e Hn Hin.
+        rewrite validate_errs_unfold in Hin. destruct (feature_enabled fs d); [|destruct Hin].
+        apply in_app_or in Hin. destruct Hin as [Hin|Hin].
+        + apply in_flat_map in Hin. destruct Hin as [[k nd'] [Hk He]]. cbn [field_errs] in He.
+          assert (Hw : verr_below pre (EValidation (path_join pre k))) by (eexists; split; [reflexivity | apply is_prefix_join]).
+          assert (Hs : (nsize nd' <= n)%nat) by (pose proof (fsize_in _ _ _ Hk); lia).
+          destruct nd' as [f|d1 v1 f1|req v1 f1]; destruct (dget k d) as [[x|c0|l]|]; try (destruct He; fail).
+          * destruct (lvalidate f x) eqn:Ev; try (destruct He; fail). destruct He as [<-|[]].
+            rewrite wrap_plain; [exact Hw | intros q Hq; subst; eapply leaf_validate_plain; eauto].
+          * destruct (validate_errs (NSub d1 v1 f1) (path_join pre k) (VCfg c0)) as [|e0 r] eqn:Ee; [destruct He|].
+            cbn [firstn] in He. destruct He as [<-|[]].
+            eapply verr_below_weaken; [apply is_prefix_join|]. eapply IH; [exact Hs|]. rewrite Ee. left; reflexivity.
+          * destruct x; try (destruct He; fail). destruct req; [|destruct He]. destruct He as [<-|[]]. exact Hw.
+          * destruct (req && is_nil l); [destruct He as [<-|[]]; exact Hw|].
+            destruct (validate_errs (NCfgList req v1 f1) (path_join pre k) (VList l)) as [|e0 r] eqn:Ee; [destruct He|].
+            cbn [firstn] in He. destruct He as [<-|[]].
+            eapply verr_below_weaken; [apply is_prefix_join|]. eapply IH; [exact Hs|]. rewrite Ee. left; reflexivity.
+        + apply in_flat_map in Hin. destruct Hin as [m [_ He]]. destruct (vrun m (leaf_values d)); [destruct He|].
+          destruct He as [<-|[]]. eexists; split; [reflexivity | apply is_prefix_refl]. }
+      destruct nd as [f|dyn vs fs|req vs fs].
+      + destruct v; destruct Hin.
+      + rewrite nsize_sub in Hn. destruct v as [x|c|l]; try (destruct Hin; fail). eapply Hsub; [|exact Hin]. lia.
+      + rewrite nsize_cfglist in Hn. destruct v as [x|c|l]; try (destruct Hin; fail).
+        rewrite validate_errs_list in Hin. apply items_errs_in in Hin. destruct Hin as [j [it Hin]].
+        eapply verr_below_weaken; [apply is_prefix_index|]. eapply Hsub; [|exact Hin]. lia.
   Qed.
 
   Lemma validate_raise_below : forall nd pre v e, validate_raise nd pre v = OErr e -> verr_below pre e.
